@@ -274,6 +274,7 @@ func (srv *server) Status() int32 {
 
 func (srv *server) sessionTerminatedLocked(clientID string, reason SessionTerminatedReason) (err error) {
 	err = srv.removeSessionLocked(clientID)
+	verifTrace(srv, "terminated", "cid", clientID, "reason", int(reason))
 	if srv.hooks.OnSessionTerminated != nil {
 		srv.hooks.OnSessionTerminated(context.Background(), clientID, reason)
 	}
@@ -321,6 +322,7 @@ func (srv *server) lockDuplicatedID(c *client) (oldSession *gmqtt.Session, err e
 			var oldClient *client
 			oldClient = srv.clients[oldSession.ClientID]
 			srv.mu.Unlock()
+			verifGate(srv, "takeover.unlocked", "cid", c.opts.ClientID, "conn", verifConn(c), "old", verifConn(oldClient))
 			if oldClient == nil {
 				srv.mu.Lock()
 				break
@@ -333,6 +335,7 @@ func (srv *server) lockDuplicatedID(c *client) (oldSession *gmqtt.Session, err e
 			oldClient.setError(codes.NewError(codes.SessionTakenOver))
 			oldClient.Close()
 			<-oldClient.closed
+			verifGate(srv, "takeover.oldclosed", "cid", c.opts.ClientID, "conn", verifConn(c), "old", verifConn(oldClient))
 			continue
 		}
 		break
@@ -406,6 +409,7 @@ func (srv *server) registerClient(connect *packets.Connect, client *client) (ses
 			if client.version == packets.Version5 {
 				client.topicAliasManager = srv.newTopicAliasManager(client.config, client.opts.ClientTopicAliasMax, client.opts.ClientID)
 			}
+			verifTrace(srv, "register", "cid", client.opts.ClientID, "conn", verifConn(client), "resume", sessionResume, "clean", connect.CleanStart)
 		}
 		srv.mu.Unlock()
 	}()
@@ -516,6 +520,7 @@ func (w *willMsg) signal(send bool) {
 
 // sendWillLocked sends the will message for the client, this function must be guard by srv.Lock.
 func (srv *server) sendWillLocked(msg *gmqtt.Message, clientID string) {
+	verifTrace(srv, "will", "cid", clientID, "topic", msg.Topic)
 	req := &WillMsgRequest{
 		Message: msg,
 	}
@@ -535,6 +540,7 @@ func (srv *server) sendWillLocked(msg *gmqtt.Message, clientID string) {
 func (srv *server) unregisterClient(client *client) {
 	srv.mu.Lock()
 	defer srv.mu.Unlock()
+	verifTrace(srv, "unregister", "cid", client.opts.ClientID, "conn", verifConn(client), "cleanwill", client.cleanWillFlag)
 	now := time.Now()
 	var storeSession bool
 	if sess, err := srv.sessionStore.Get(client.opts.ClientID); sess != nil {
@@ -642,6 +648,7 @@ func (srv *server) addMsgToQueueLocked(now time.Time, clientID string, msg *gmqt
 			Message: msg,
 		},
 	})
+	verifTrace(srv, "enqueue", "dst", clientID, "topic", msg.Topic, "qos", int(msg.QoS), "payload", string(msg.Payload), "err", err != nil)
 	if err != nil {
 		srv.clients[clientID].queueNotifier.notifyDropped(msg, &queue.InternalError{Err: err})
 		return
@@ -1492,6 +1499,7 @@ func (srv *server) Stop(ctx context.Context) error {
 	var err error
 	srv.stopOnce.Do(func() {
 		zaplog.Info("stopping gmqtt server")
+		verifTrace(srv, "stop.begin")
 		defer func() {
 			defer close(srv.exitedChan)
 			zaplog.Info("server stopped")
@@ -1533,6 +1541,7 @@ func (srv *server) Stop(ctx context.Context) error {
 			err = ctx.Err()
 			return
 		case <-done:
+			verifTrace(srv, "stop.clientsclosed")
 			for _, v := range srv.plugins {
 				zaplog.Info("unloading plugin", zap.String("name", v.Name()))
 				err := v.Unload()
@@ -1543,6 +1552,7 @@ func (srv *server) Stop(ctx context.Context) error {
 			if srv.hooks.OnStop != nil {
 				srv.hooks.OnStop(context.Background())
 			}
+			verifTrace(srv, "stop.end")
 		}
 	})
 	return err
